@@ -21,9 +21,9 @@ theorem C12_no_silent_change : ∀ c ∈ adapterMatrix, c.outcome = .changed →
 /-- outside the recorded findings a second round trip is a fixed point of the first -/
 theorem C12_second_roundtrip_fixed : ∀ c ∈ adapterMatrix, c.fixedPoint = false → c.known = true := by decide +kernel
 
-/-- the matrix is the whole domain: 15 exporters x (56 measure cells + 16 structure cells (incl. 5 relationship x related-key pairs): keys, source, relationship
+/-- the matrix is the whole domain: 15 exporters x (56 measure cells + 17 structure cells (incl. 5 relationship x related-key pairs and two time dimensions): keys, source, relationship
 types, dimension types / granularity, segment) -/
-theorem C12_matrix_complete : adapterMatrix.length = 15 * (56 + 16) := by decide +kernel
+theorem C12_matrix_complete : adapterMatrix.length = 15 * (56 + 17) := by decide +kernel
 
 /-- the recorded findings are not stale: each listed cell is still observed as changed or not a fixed point -/
 theorem C12_known_cells_still_fail :
